@@ -27,6 +27,7 @@ CFG = """SPECIFICATION Spec
 CONSTANTS
   Ns = {%(Ns)s}
   Ms = {%(Ms)s}
+  MsNoEtag = {%(MsNoEtag)s}
   NsWide = {%(NsWide)s}
   MsFew = {%(MsFew)s}
   MaxSzx = 2
@@ -41,7 +42,7 @@ CONSTANTS
 """
 
 LENS = [0, 1, 15, 16, 17, 1023, 1024, 1025, 1124, 1125, 2048, 2049, 5000]
-FAULTS = ["b1num", "b1more", "b1cont", "b2num", "b2skip", "b2short", "b2empty", "b2over", "etag"]
+FAULTS = ["b1num", "b1numlo", "b1more", "b1cont", "b2num", "b2numlo", "b2skip", "b2prev", "b2short", "b2empty", "b2over", "etag"]
 LEN_FAULTS = ("b2short", "b2empty", "b2over")
 
 
@@ -74,10 +75,10 @@ def behaviour_to_schedule(beh, seed):
                 sched["s2"].append(act["a2"])
             for e in st.get("emit", []):
                 if e["k"] == "rep":
-                    sched["reps"][e["rid"] - 1] = {"len": e["len"], "etag": True}
+                    sched["reps"][e["rid"] - 1] = {"len": e["len"], "etag": e["etag"] >= 0}
             if act["flt0"] != "none":
                 k = act["flt0"]
-                nth = act["nb1"] if k == "b1num" else act["nb2"] if (k.startswith("b2") or k == "etag") else 0
+                nth = act["nb1"] if k in ("b1num", "b1numlo") else act["nb2"] if (k.startswith("b2") or k == "etag") else 0
                 sched["fault"] = {"kind": k, "nth": nth, "short": act["sh"], "over": "double" if act["dbl"] else "one",
                                   "repeat": bool(act["rp"])}
             if act["fate"] != "ok":
@@ -293,16 +294,16 @@ def work(rep, args):
     # quick: every length within one byte of a block boundary of any modelled size; thorough: every length
     edgeN = sorted({x for b in range(0, 131, 16) for x in (b - 1, b, b + 1) if 0 <= x <= 130} | {130})
     if quick:
-        consts = dict(Ns=edgeN, Ms=edgeN, NsWide=[65], MsFew=[0, 40], styles=['"a"', '"s"'])
+        consts = dict(Ns=edgeN, Ms=edgeN, NsWide=[65], MsFew=[0, 40], MsNoEtag=[40], styles=['"a"', '"s"'])
     else:
-        consts = dict(Ns=allN, Ms=allN, NsWide=[0, 20, 70, 130], MsFew=[0, 10, 40, 100], styles=['"a"', '"s"', '"as"', '"sa"'])
+        consts = dict(Ns=allN, Ms=allN, NsWide=[0, 20, 70, 130], MsFew=[0, 10, 40, 100], MsNoEtag=[40, 100], styles=['"a"', '"s"', '"as"', '"sa"'])
     with tlc.Workdir() as wd:
         def mc():
             cfg = "BlockClient_mc.cfg"
             wd.write(cfg, CFG % dict({k: cset(v) for k, v in consts.items()}, at="0", comb="FALSE" if quick else "TRUE", extra="VIEW View\nINVARIANT NoBad\nINVARIANT Completes"))
             return tlc.run(wd, "BlockClient.tla", cfg, timeout=600 if quick else 2400, heap="8g")
 
-        wd.write("BlockClient_sim.cfg", CFG % dict(Ns=cset(allN), Ms=cset(edgeN + [7, 40, 100]), NsWide=cset(allN), MsFew="0", at=cset(range(1, 15)), comb="TRUE", styles='"a", "s", "as", "sa"', extra=""))
+        wd.write("BlockClient_sim.cfg", CFG % dict(Ns=cset(allN), Ms=cset(edgeN + [7, 40, 100]), NsWide=cset(allN), MsFew="0", MsNoEtag=cset([16, 17, 33, 40, 64, 65, 100, 129]), at=cset(range(1, 15)), comb="TRUE", styles='"a", "s", "as", "sa"', extra=""))
         simdir = wd.file("sim")
         os.makedirs(simdir)
         nsim = 300 if quick else 4000
